@@ -340,26 +340,51 @@ def recursive_case(case, acc, ctx):
         fi, fo, fc = os.path.join(d, "i.suit"), os.path.join(d, "o.suit"), os.path.join(d, "c.json")
         with open(fi, "wb") as fh:
             fh.write(inb)
-        cfg.update({"sign-script": sut.SIGN_SCRIPT(), "kms-script": sut.KMS_SCRIPT(), "context": keys.dir})
+        # where the scripts come from: named at the root of the configuration (children inherit them), or - when the configuration names
+        # none - from NCS_SUIT_SIGN_SCRIPT / NCS_SUIT_KMS_SCRIPT. With scripts named in the configuration the environment variables must
+        # not matter: they point at decoy scripts that refuse to work.
+        scripts = case.get("scripts", "config")
+        envx = {}
+        if scripts == "env":
+            cfg.update({"context": keys.dir})
+            envx = {"NCS_SUIT_SIGN_SCRIPT": sut.SIGN_SCRIPT(), "NCS_SUIT_KMS_SCRIPT": sut.KMS_SCRIPT()}
+        else:
+            cfg.update({"sign-script": sut.SIGN_SCRIPT(), "kms-script": sut.KMS_SCRIPT(), "context": keys.dir})
+            if scripts == "config+decoy-env":
+                for var, fn, fac in (("NCS_SUIT_SIGN_SCRIPT", "decoy_sign.py", "suit_signer_factory"), ("NCS_SUIT_KMS_SCRIPT", "decoy_kms.py", "suit_kms_factory")):
+                    with open(os.path.join(d, fn), "w") as fh:
+                        fh.write(f"def {fac}():\n    raise RuntimeError('the script named by the environment was used although the configuration names one')\n")
+                    envx[var] = os.path.join(d, fn)
         with open(fc, "w") as fh:
             json.dump(cfg, fh)
         raised = None
+        saved = {k: os.environ.get(k) for k in ("NCS_SUIT_SIGN_SCRIPT", "NCS_SUIT_KMS_SCRIPT", "ZEPHYR_BASE")}
         try:
             if route == "main":
+                os.environ.pop("ZEPHYR_BASE", None)
+                for k in ("NCS_SUIT_SIGN_SCRIPT", "NCS_SUIT_KMS_SCRIPT"):
+                    os.environ.pop(k, None)
+                os.environ.update(envx)
                 sut.sign_recursive(fi, fo, fc)
             else:
-                ok, r = sut.cli_ok(["sign", "recursive", "--input-envelope", fi, "--output-envelope", fo, "--configuration", fc], d)
+                ok, r = sut.cli_ok(["sign", "recursive", "--input-envelope", fi, "--output-envelope", fo, "--configuration", fc], d, env_extra=envx)
                 if not ok:
                     raised = RuntimeError(f"CLI exit {r.returncode}: {r.stderr[-200:]}")
         except boot.HarnessError:
             raise
         except Exception as e:
             raised = e
+        finally:
+            for k, v in saved.items():
+                if v is None:
+                    os.environ.pop(k, None)
+                else:
+                    os.environ[k] = v
         why = expected_failure(tree, plan)
         dp = depth_of(tree)
         omit = has(plan, lambda p: p["mode"].startswith("omit"))
         pres = any_presigned(tree)
-        classes = ["recursive", f"depth:{dp}", f"route:{route}"] + (["omit-node"] if omit else []) + (["presigned-node"] if pres else []) + ([f"negative:{why}"] if why else [])
+        classes = ["recursive", f"depth:{dp}", f"route:{route}", f"scripts:{scripts}"] + (["omit-node"] if omit else []) + (["presigned-node"] if pres else []) + ([f"negative:{why}"] if why else [])
         if has(plan, lambda p: p["mode"] == "omit-nokey"):
             classes.append("omit-without-key-fields")
         stats = {}
@@ -424,7 +449,10 @@ def run_shard(ctx, spec):
         return acc
     route = spec["route"]
     n = spec["n"] if not spec.get("guard_off") else max(5, spec["n"] // 6)
-    strat = tree_s(spec["depth"]).flatmap(lambda t: cfg_s(t).map(lambda cp: {"tree": t, "cfg": cp[0], "plan": cp[1], "route": route}))
+    from hypothesis import strategies as _st
+
+    strat = tree_s(spec["depth"]).flatmap(lambda t: _st.tuples(cfg_s(t), _st.sampled_from(["config", "config", "config+decoy-env", "env"])).map(
+        lambda cs: {"tree": t, "cfg": cs[0][0], "plan": cs[0][1], "route": route, "scripts": cs[1]}))
     run_given(ctx, acc, "recursive", strat, lambda c, a: recursive_case(c, a, ctx), seed=ctx.seed * 1000 + spec["i"], n=n)
     return acc
 
@@ -445,7 +473,7 @@ def finalize(ctx, m, ev):
     c = m["counters"]
     ev["coverage"]["exhaustive_scope"] = "policy table (2 x 3 x 5 x 4 = 120 cases) enumerated completely; trees/configurations sampled"
     need = ["table", "omit-node", "omit-without-key-fields", "presigned-node", "depth:3", "route:cli", "negative:absent dependency",
-            "negative:dependency is not an envelope", "negative:already signed and action error", "distinct-keys:2"]
+            "negative:dependency is not an envelope", "negative:already signed and action error", "distinct-keys:2", "scripts:env", "scripts:config+decoy-env"]
     for n in need:
         if not c.get(n):
             raise boot.HarnessError(f"interesting class {n} is empty")
